@@ -334,6 +334,7 @@ infos_of = ufun("infos_of", ["Project", "Path"], "list[ReuseInfo]")
 license_keys = ufun("license_keys", ["Expr"], "set[str]")
 relative_of = ufun("relative_of", ["Path", "Path"], "Path")
 sha1_of = ufun("sha1_of", ["Path"], "str")
+md5hex = ufun("md5hex", ["str"], "str")
 
 
 @contract("reuse.project.Project.reuse_info_of", serves=["C01", "C04"], assumed=True,
@@ -426,7 +427,13 @@ class FileReportGenerate:
                 and (result.copyright != "") == exists(lambda j, line: 0 <= j and j < len(infos) and line in infos[j].copyright_lines, "int", "str")
                 and result.reuse_infos == infos
                 and implies(do_checksum, result.chk_sum == sha1_of(path))
-                and implies(not add_license_concluded, result.license_concluded == "NOASSERTION"))
+                # C18: the file is named relative to the root, its SPDXID is the MD5 of name and checksum
+                and result.name == "./" + str(relative_of(project.root, path))
+                and result.spdx_id == "SPDXRef-" + md5hex(result.name + result.chk_sum)
+                and implies(not add_license_concluded, result.license_concluded == "NOASSERTION")
+                and implies(add_license_concluded
+                            and forall(lambda j: implies(0 <= j and j < len(infos), not infos[j].spdx_expressions), "int"),
+                            result.license_concluded == "NONE"))
 
     loops = {
         0: LoopSpec(inv=lambda report, reuse_infos, project, _i, k0: (
@@ -717,3 +724,27 @@ class SubsetGenerate:
                        == (missing_from_files(results, _i0, l, p) or (l in _done and p == file_report.path)), "str", "Path")
                 and no_empty_values(subset_report.missing_licenses))),
     }
+
+
+# ---- C18: creator field, identifier uniqueness ---------------------------------------------------------------------
+@contract("reuse.report.format_creator", serves=["C18"])
+class FormatCreator:
+    types = {"creator": "Optional[str]", "return": "str"}
+    pure = True
+
+    def post(creator, result):
+        # "Name (email)" is kept; a bare name gets the empty e-mail part; no creator is "Anonymous ()"
+        return ((creator is None and result == "Anonymous ()")
+                or (creator is not None and "(" in creator and creator.endswith(")") and result == creator)
+                or (creator is not None and not ("(" in creator and creator.endswith(")")) and result == creator + " ()"))
+
+
+@lemma(types={"fa": "FileReport", "fb": "FileReport"}, serves=["C18"], name="spdx-ids-unique-per-name")
+def spdx_ids_unique(fa, fb):
+    # with MD5 collision-free on the inputs at hand (assumption, stated), two reports with the identifier shape proved for
+    # FileReport.generate and different (name, checksum) texts have different SPDXIDs
+    return implies(forall(lambda x, y: implies(md5hex(x) == md5hex(y), x == y), "str", "str")
+                   and fa.spdx_id == "SPDXRef-" + md5hex(fa.name + fa.chk_sum)
+                   and fb.spdx_id == "SPDXRef-" + md5hex(fb.name + fb.chk_sum)
+                   and fa.name + fa.chk_sum != fb.name + fb.chk_sum,
+                   fa.spdx_id != fb.spdx_id)
